@@ -622,6 +622,14 @@ impl Board {
             return false;
         }
 
+        // no side can have more men than a chess set provides; the move generator's fixed-size
+        // move list (one entry per man, plus en passant) relies on this
+        if self.color_combined(Color::White).popcnt() > 16
+            || self.color_combined(Color::Black).popcnt() > 16
+        {
+            return false;
+        }
+
         // make sure the en_passant square has a pawn on it of the right color
         match self.en_passant {
             None => {}
